@@ -50,8 +50,23 @@ def new_array(bucket, drop):
     return DynamicNumpyArray((bucket, 1), drop_at=(drop or None))
 
 
+_NEAR = [False]      # near mode: model value k is stored as 60000 + k/1024 (exact in float64): successive rows are
+BASE = 60000.0       # "almost equal" floats, as candle rows are; TLC still sees the integers k
+
+
+def enc(v):
+    return BASE + v / 1024.0 if _NEAR[0] else float(v)
+
+
+def dec(x):
+    if not _NEAR[0]:
+        return int(x)
+    k = (float(x) - BASE) * 1024.0
+    return int(k) if k == int(k) else -7
+
+
 def rows(v, n):
-    return np.array([[float(v + k)] for k in range(n)])
+    return np.array([[enc(v + k)] for k in range(n)])
 
 
 def b2py(x):
@@ -59,7 +74,7 @@ def b2py(x):
 
 
 def visible(arr):
-    return [int(arr[i][0]) for i in range(len(arr))]
+    return [dec(arr[i][0]) for i in range(len(arr))]
 
 
 def apply_op(arr, op):
@@ -68,7 +83,7 @@ def apply_op(arr, op):
     ev = dict(op)
     try:
         if k == "append":
-            arr.append(np.array([float(op["v"])]))
+            arr.append(np.array([enc(op["v"])]))
         elif k == "append_multiple":
             arr.append_multiple(rows(op["v"], op["n"]))
         elif k == "delete":
@@ -76,7 +91,7 @@ def apply_op(arr, op):
         elif k == "flush":
             arr.flush()
         elif k == "setitem":
-            arr[op["i"]] = np.array([float(op["v"])])
+            arr[op["i"]] = np.array([enc(op["v"])])
         elif k == "setslice":
             arr[slice(b2py(op["a"]), b2py(op["b"]))] = rows(op["v"], op["n"])
         else:
@@ -100,7 +115,7 @@ def read_table(arr, rng=None, full=True, nslices=40):
     gi = []
     for i in idxs:
         try:
-            gi.append({"i": i, "ok": True, "r": int(arr[i][0])})
+            gi.append({"i": i, "ok": True, "r": dec(arr[i][0])})
         except IndexError:
             gi.append({"i": i, "ok": False, "r": 0})
     bounds = [NONE] + idxs
@@ -111,13 +126,13 @@ def read_table(arr, rng=None, full=True, nslices=40):
     for a, b in pairs:
         try:
             r = arr[slice(b2py(a), b2py(b))]
-            gs.append({"a": a, "b": b, "ok": True, "r": [int(x[0]) for x in r]})
+            gs.append({"a": a, "b": b, "ok": True, "r": [dec(x[0]) for x in r]})
         except Exception:
             gs.append({"a": a, "b": b, "ok": False, "r": []})
     past = []
     for p in range(0, n + 2):
         try:
-            past.append({"p": p, "ok": True, "r": int(arr.get_past_item(p)[0])})
+            past.append({"p": p, "ok": True, "r": dec(arr.get_past_item(p)[0])})
         except IndexError:
             past.append({"p": p, "ok": False, "r": 0})
     return {"k": "reads", "len": n, "gi": gi, "gs": gs, "past": past}
@@ -250,12 +265,38 @@ def run(ctx):
     for s in range(n_t):
         bucket = rng.choice([2, 3, 4, 5, 7, 10, 16])
         drop = rng.choice([0, 0, 0, 4, 6, 10, 20])
+        _NEAR[0] = (s % 3 == 1)          # every third sequence stores nearly equal float rows
         arr = new_array(bucket, drop)
         evs, v = [], 1
         model_len = 0
+        held, countdown = None, 0
         for step in range(length):
             n = len(arr)
             c = rng.random()
+            if held is not None:
+                # a row object read earlier is still held by the caller: only appends and deletions in between,
+                # then the held object itself is appended (a list would append the row as it was when read)
+                countdown -= 1
+                if countdown <= 0:
+                    ev = {"k": "append_held"}
+                    try:
+                        arr.append(held)
+                        ev["exc"] = "none"; ev["vis"] = visible(arr)
+                    except Exception as ex:
+                        ev["exc"] = type(ex).__name__; ev["vis"] = []
+                    evs.append(ev); held = None
+                    if ev["exc"] != "none":
+                        break
+                    continue
+                c = c * 0.75 if n else 0.0
+                if c >= 0.6 and n == 0:
+                    c = 0.0
+            elif n > 0 and drop == 0 and rng.random() < 0.06:
+                i = rng.randrange(-n, n)
+                held = arr[i]
+                evs.append({"k": "hold", "i": i, "ok": True, "r": dec(held[0])})
+                countdown = rng.randint(1, 6)
+                continue
             if c < 0.45 or n == 0:
                 op = {"k": "append", "v": v}; v += 1
             elif c < 0.6:
@@ -287,7 +328,8 @@ def run(ctx):
                 evs.append(apply_op(arr, arr_flush))
         evs.append(read_table(arr, rng, full=False, nslices=60))
         tid += 1
-        traces.append({"id": tid, "hdr": {"bucket": bucket, "drop": drop, "src": "T"}, "ev": evs})
+        traces.append({"id": tid, "hdr": {"bucket": bucket, "drop": drop, "src": "T", "near": _NEAR[0]}, "ev": evs})
+        _NEAR[0] = False
         ctx.nontrivial.add(("T", bucket, drop, s))
         if s == 0:
             samples.append({"kind": "T: random sequence (first 12 events)", "bucket": bucket, "drop": drop, "ops": evs[:12]})
@@ -307,10 +349,22 @@ def run(ctx):
 
 def replay(ctx, rp):
     p = rp["payload"]
+    _NEAR[0] = bool(p["hdr"].get("near"))
     arr = new_array(p["hdr"]["bucket"], p["hdr"]["drop"])
     evs = []
+    held = None
     for e in p["ev"]:
-        if e["k"] == "reads":
+        if e["k"] == "hold":
+            held = arr[e["i"]]
+            evs.append({"k": "hold", "i": e["i"], "ok": True, "r": dec(held[0])})
+        elif e["k"] == "append_held":
+            ev = {"k": "append_held"}
+            try:
+                arr.append(held); ev["exc"] = "none"; ev["vis"] = visible(arr)
+            except Exception as ex:
+                ev["exc"] = type(ex).__name__; ev["vis"] = []
+            evs.append(ev)
+        elif e["k"] == "reads":
             evs.append(read_table(arr, random.Random(0), full=True))
         else:
             op = {k: v for k, v in e.items() if k not in ("exc", "vis")}
